@@ -543,7 +543,7 @@ def e3_specs(tier, variants=True):
 
 
 def model_items(tier, ID, variants=True, group=12):
-    specs = e3_specs(tier, variants)
+    specs = degenerate_specs() + e3_specs(tier, variants)
     items = []
     for ch in E.chunks(specs, group):
         items.append({"key": f"{ch[0][0]}..{ch[-1][0]}", "kind": "models", "specs": [[k, s] for k, s in ch],
@@ -603,6 +603,13 @@ def rate_family():
         ("const", n("1.5")), ("y-only", L.bin_("*", n("2"), y)),
         ("exp(-x*x)", L.call("exp", L.neg(L.bin_("*", x, x)))), ("x*exp(i)", L.bin_("*", x, L.call("exp", i))),
         ("stiff", L.bin_("*", L.neg(n("1000")), L.bin_("-", x, p))),
+        # derivatives that are identically zero (every way of writing zero), and a state that only occurs in a condition
+        ("zero", n("0")), ("zero-float", n("0.0")), ("p-p", L.bin_("-", p, p)), ("0*x", L.bin_("*", n("0"), x)), ("x*0+y-y", L.bin_("-", L.bin_("+", L.bin_("*", x, n("0")), y), y)),
+        ("only-in-condition", L.cond(L.rel("Gt", x, p), L.neg(y), y)), ("only-in-condition-2", L.cond(("and", L.rel("Lt", x, n("1")), L.rel("Gt", y, n("0"))), n("1.5"), p)),
+        # nonlinear in the own state, divided by / multiplied with other names (g has several symbolic factors)
+        ("fhn", L.bin_("/", L.bin_("-", L.bin_("-", x, L.bin_("/", L.bin_("**", x, n("3")), n("3"))), y), p)), ("cos(x)/p", L.bin_("/", L.call("cos", x), p)),
+        ("x*x/p", L.bin_("/", L.bin_("*", x, x), p)), ("sin(x)*x/p", L.bin_("/", L.bin_("*", L.call("sin", x), x), p)), ("(1-x*x)*y", L.bin_("*", L.bin_("-", n("1"), L.bin_("*", x, x)), y)),
+        ("exp(-x)/(1+p*p)", L.bin_("/", L.call("exp", L.neg(x)), L.bin_("+", n("1"), L.bin_("*", p, p)))), ("x**2/(y*p)", L.bin_("/", L.bin_("**", x, n("2")), L.bin_("*", y, p))),
     ]
     return out + nl
 
@@ -616,3 +623,23 @@ def rate_spec(rate_ast, yrate=None):
 
 def rate_specs():
     return [(f"rate|{name}", rate_spec(a)) for name, a in rate_family()]
+
+
+def degenerate_specs():
+    """models at the edges of the structure space: no parameters, a single state, no intermediates, only constants, many states"""
+    n, v = L.num, L.var
+    out = [
+        ("deg|one-state-no-params", spec([("x", n("1.0"))], [], [("dx_dt", L.neg(v("x")))])),
+        ("deg|two-states-no-params", spec([("x", n("1.0")), ("y", n("2.0"))], [], [("i", L.bin_("*", v("x"), v("y"))), ("dx_dt", L.bin_("-", v("i"), v("x"))), ("dy_dt", L.bin_("*", n("0.5"), v("x")))])),
+        ("deg|no-params-time-only", spec([("x", n("1.0"))], [], [("dx_dt", L.bin_("*", n("2"), v("t")))])),
+        ("deg|constant-derivatives", spec([("x", n("1.0")), ("y", n("2.0"))], [("p", n("0.5"))], [("dx_dt", n("1.5")), ("dy_dt", L.neg(n("0.25")))])),
+        ("deg|parameter-only-derivative", spec([("x", n("1.0"))], [("p", n("0.5")), ("q", n("1.5"))], [("dx_dt", L.bin_("*", v("p"), v("q")))])),
+        ("deg|intermediate-constant", spec([("x", n("1.0"))], [("p", n("0.5"))], [("c", n("3")), ("dx_dt", L.bin_("-", v("c"), L.bin_("*", v("p"), v("x"))))])),
+        ("deg|six-states", spec([(f"s{i}", n(str(i + 0.5))) for i in range(6)], [("p", n("0.5"))],
+                                [(f"ds{i}_dt", L.bin_("-", L.bin_("*", n(str(i + 1)), v(f"s{(i + 1) % 6}")), L.bin_("*", v("p"), v(f"s{i}")))) for i in range(6)])),
+        ("deg|names-by-case", spec([("X", n("1.0")), ("x", n("2.0"))], [("g_K", n("0.5")), ("G_K", n("1.5"))],
+                                   [("i_K", L.bin_("*", v("g_K"), v("x"))), ("I_K", L.bin_("*", v("G_K"), v("X"))), ("dX_dt", L.bin_("-", v("i_K"), v("X"))), ("dx_dt", L.bin_("+", v("I_K"), v("x")))])),
+        ("deg|long-names", spec([("membrane_potential_of_the_cell", n("1.0"))], [("a_rather_long_parameter_name_0123456789", n("0.5"))],
+                                [("dmembrane_potential_of_the_cell_dt", L.bin_("*", L.neg(v("a_rather_long_parameter_name_0123456789")), v("membrane_potential_of_the_cell")))])),
+    ]
+    return out
